@@ -87,12 +87,14 @@ func verifC27Class(m map[uintptr]int, p uintptr) int {
 
 // A slice's identity is the end of its capacity, which is invariant under s[i:] and s[:j].
 // Class -1: nil; class 0: zero capacity (no storage that could be written).
-func verifC27StrSlice(cl *verifC27Classes, s []string) VerifC27Slice {
+// With hideEmpty (used for Params, whose capacity is an accident of field expansion) an empty
+// slice is not classified at all.
+func verifC27StrSlice(cl *verifC27Classes, s []string, hideEmpty bool) VerifC27Slice {
 	out := VerifC27Slice{Nil: s == nil, Len: len(s), Cap: cap(s), Vals: append([]string{}, s...)}
 	switch {
 	case s == nil:
 		out.Class = -1
-	case cap(s) == 0:
+	case cap(s) == 0 || (hideEmpty && len(s) == 0):
 		out.Class = 0
 	default:
 		end := uintptr(unsafe.Pointer(unsafe.SliceData(s[:cap(s)]))) + uintptr(cap(s))*unsafe.Sizeof("")
@@ -104,7 +106,7 @@ func verifC27StrSlice(cl *verifC27Classes, s []string) VerifC27Slice {
 func verifC27Var(cl *verifC27Classes, name string, vr expand.Variable) VerifC27Var {
 	v := VerifC27Var{Name: name, Kind: int(vr.Kind), Set: vr.Set, Local: vr.Local, Exported: vr.Exported,
 		ReadOnly: vr.ReadOnly, Str: vr.Str}
-	l := verifC27StrSlice(cl, vr.List)
+	l := verifC27StrSlice(cl, vr.List, false)
 	v.ListNil, v.ListLen, v.ListCap, v.ListClass, v.List = l.Nil, l.Len, l.Cap, l.Class, l.Vals
 	v.IdxNil, v.IdxLen, v.IdxCap = vr.Indexes == nil, len(vr.Indexes), cap(vr.Indexes)
 	v.Idx = append([]int{}, vr.Indexes...)
@@ -174,8 +176,8 @@ func verifC27One(cl *verifC27Classes, r *Runner) VerifC27Runner {
 		}
 		out.Scopes = append(out.Scopes, sc)
 	}
-	out.Params = verifC27StrSlice(cl, r.Params)
-	out.DirStack = verifC27StrSlice(cl, r.dirStack)
+	out.Params = verifC27StrSlice(cl, r.Params, true)
+	out.DirStack = verifC27StrSlice(cl, r.dirStack, false)
 	out.Dir = r.Dir
 	out.Opts = append([]bool{}, r.opts[:]...)
 	out.FuncsNil, out.FuncsClass = r.Funcs == nil, -1
